@@ -98,6 +98,12 @@ impl Import {
         let path = Path::new(src);
         let attempted_path = Path::new(str_part);
         let path = path.parent().context("no parent")?.join(attempted_path);
+        // `m` and `./m` name the same module: drop `.` components so that both spellings
+        // yield the same path (the path is the key under which a module is loaded once).
+        let path = path
+            .components()
+            .filter(|component| !matches!(component, std::path::Component::CurDir))
+            .collect::<PathBuf>();
         Ok(path)
     }
 }
